@@ -255,8 +255,8 @@ func (w *Filter) FlushAll(ctx context.Context) error {
 		// no op... perhaps we should log this somehow in the future if the
 		// Filter adds a logger.  For now, we'll just drop all the events
 		// into the bit bucket to nowhere.
-		w.gated = nil
-		w.orderedGated = nil
+		w.gated = map[string]*gatedEvent{}
+		w.orderedGated = list.New()
 		return nil
 	}
 
